@@ -37,7 +37,7 @@ ASSUMPTIONS = [
     'the order of _yatiml_extra follows the document, so it is compared as an unordered mapping under key permutation only',
     'which exception reports a failure is C08\'s business: any failure equals any failure',
 ]
-STYLES = ['flow', 'sq', 'dq', 'canonical', 'json', 'narrow']
+STYLES = ['flow', 'sq', 'dq', 'canonical', 'json', 'narrow', 'literal', 'folded']
 
 EXTRA_SPEC = {'classes': [{'name': 'Zunrel', 'params': [('zz_u', 'int'), ('zz_v', 'str', 'd')]},
                           {'name': 'Zen', 'kind': 'enum', 'members': ['zq1', 'true', 'a', 'k', 'v', 'k2', 'x y']},
@@ -519,7 +519,7 @@ def run_unit(unit, tier):
                        unordered_extra=True)
             changed += 1
         # --- renderings
-        for st in STYLES:
+        for st in (STYLES if tier == 'thorough' else [x for x in STYLES if x not in ('folded', 'sq', 'narrow')]):
             text2, back2 = case.R.checked(tree, st)
             if text2 is None:
                 res.hist['style-not-applicable:' + st] += 1
